@@ -21,7 +21,21 @@ def run(run):
     small = head_of(run, tr, 400, "c07.small.trace.ndjson")
     run.negative_control_trace("trace/Trace_Time.tla", "trace/Trace_Time.cfg", small,
                                corrupt_first(lambda e: e.get("op") == "Round.i128" and e["out"]["kind"] == "ok", lambda e: bump_big(e["out"]["val"])))
+    # toString with precision + rounding mode: round by the type's rule, then print (RoundedFormat = rounding operators o writer)
+    cases3, n3 = run.gen("mc/MC_RoundedFormat.tla", "gen/Gen_C07_tostring.cfg", workers=6, name="tostring")
+    run.replay(b, cases3, label="tostring")
+    tr2 = run.record(b, "c07f", 3000 if q else 40000, label="c07f")
+    run.validate("trace/Trace_RoundedFormat.tla", "trace/Trace_RoundedFormat.cfg", tr2, label="c07f")
+    small2 = head_of(run, tr2, 300, "c07f.small.trace.ndjson")
+
+    def flip_last_digit(e):
+        v = e["out"]["val"]
+        k = max(i for i, ch in enumerate(v) if ch.isdigit())
+        v[k] = "1" if v[k] != "1" else "2"
+    run.negative_control_trace("trace/Trace_RoundedFormat.tla", "trace/Trace_RoundedFormat.cfg", small2,
+                               corrupt_first(lambda e: e.get("op") == "Fmt.Instant" and e["out"]["kind"] == "ok", flip_last_digit))
     run.cov["rule"] = ("replay: one case per (x, increment, mode) of the exhaustive small table (both rounder instantiations) and per "
-                      "(entry point, unit, admissible increment, sign, parity, remainder class, mode); traces: seeded values q*n+r with ties over-sampled")
+                      "(entry point, unit, admissible increment, sign, parity, remainder class, mode), and per (type, value, precision -2..9, mode) of toString for PlainTime, PlainDateTime, Instant, Duration, "
+                      "ZonedDateTime; traces: seeded values q*n+r with ties over-sampled, through the rounding entry points and through toString")
     run.cov["distinct_nontrivial"] = run.cov["evaluations"]
     run.assumptions += ["Instant.round (and instant strings) are judged with Temporal's RoundNumberToIncrementAsIfPositive; differences (until/since) and durations with the signed RoundNumberToIncrement (DESIGN.md Appendix A)"]
